@@ -180,6 +180,16 @@ class OrderedMultiDict(dict):
         self.clear()
         self.update_extend(state)
 
+    def __reduce_ex__(self, protocol):
+        # The list of pairs is the whole state. The default reduction
+        # of a dict subclass also streams items(), which copy.copy()
+        # and copy.deepcopy() replay through __setitem__ after
+        # __setstate__ (collapsing multi-valued keys), and under
+        # protocols 0 and 1 rebuilds through dict.__new__, skipping
+        # __new__ and, for an empty (falsy) state, __setstate__ too.
+        from copyreg import __newobj__
+        return __newobj__, (self.__class__,), self.__getstate__()
+
     def _clear_ll(self):
         try:
             _map = self._map
